@@ -1,13 +1,24 @@
 (* Properties/C10.v — at most maxInFlight events buffered; eviction only for cause. *)
 From Coq Require Import List ZArith Bool.
 Import ListNotations.
-Require Import Reassembler ReasmInv ReasmC01 ReasmC10 ChkBound ReasmBound ReasmCause.
+Require Import Reassembler ReasmInv ReasmC01 ReasmC10 ChkBound ReasmBound ReasmCause ChkReasm ReasmWalk.
 Open Scope Z_scope.
 
 (* the bound, for every history (no window needed): after every Push at most
    maxInFlight distinct sequences are pushed-but-undelivered *)
 Theorem C10_bound_any_history : forall c ops, 0 <= maxSize c -> chk_bound (maxSize c) [] ops (run c init ops) = true.
 Proof. intros c ops H. apply run_chk_bound; auto. apply InvL_init. Qed.
+
+(* THE WHOLE PROPERTY ON TRACES.  chk_C10_obs is the checker the judge evaluates on recorded
+   histories: it reconstructs, from pushes and callbacks alone, the buffered sequences, which of them
+   are complete and when each was opened, and requires after every Push the bound, for every
+   delivery outside Close a cause (complete, or more than maxInFlight buffered, or timeout elapsed),
+   and (inside a 2^24 window) that the oldest buffered event is not complete.  It accepts every run
+   of the model: all histories, all maxInFlight >= 0, all timeouts, all clock readings in which a
+   call's second reading is not before its first. *)
+Theorem C10_bound_and_cause_on_traces : forall c ops, 0 <= maxSize c -> clock_ok ops ->
+  chk_C10_obs (maxSize c) (timeout c) (map exact ops) (run c init ops) = true.
+Proof. exact chk_C10_obs_run. Qed.
 
 (* eviction only for cause: every delivery CleanUp makes outside Close is of an event that is
    complete, or found more than maxInFlight sequences buffered, or whose timeout had elapsed —
@@ -31,6 +42,7 @@ Theorem C10_head_not_complete : forall c now sqs em last has,
 Proof. exact head_after_cleanup. Qed.
 
 Print Assumptions C10_bound_any_history.
+Print Assumptions C10_bound_and_cause_on_traces.
 Print Assumptions C10_evicted_only_for_cause.
 Print Assumptions C10_log_is_the_deliveries.
 Print Assumptions C10_head_not_complete.
